@@ -23,7 +23,8 @@ RULE_TEXT = ("C01-T: for every witness interface (hand-designed families + VERIF
              " C01-PR: the contracts of the parser combinators the skeleton builds on are read from their bodies - satisfy (accept first byte iff pred / soft error / Incomplete on empty), take_while (never fails; longest prefix, position() form or counting-loop form), optional (never fails; Some(value) or input untouched), tag(b) = satisfy(== b)."
              " C01-H: parse resolves the header of a unit once, with its own (root, path) arguments (no retry from the root)."
              " C01-F: parse skips a unit (`no call`) only for an empty message."
-             " C01-C09Q: every error handed to the queue is stored - none dropped or merged with its predecessor (the push rule of C09).")
+             " C01-C09Q: every error handed to the queue is stored - none dropped or merged with its predecessor (the push rule of C09)."
+             " C01-C02H: the header rules of C02 (two lookups only; a failed compound lookup is never handed on raw, so an unresolvable header is Undefined header).")
 
 CHILD = "microscpi::tree::Node::child"
 EXECUTE = "microscpi::interface::Interface::execute"
